@@ -59,6 +59,8 @@ class Ctx:
         return z3.simplify(term(g.value) == 1)
 
     def snapshot(self):
+        if "pysnark.runtime" not in self.w.modules:
+            return dict(ie=False, guard=None, ONE=None, num_constraints=0, bitlength=0)
         rt = self.rt
         return dict(ie=rt._ignore_errors, guard=rt.guard, ONE=rt.LinComb.ONE,
                     num_constraints=rt.num_constraints, bitlength=rt.bitlength)
@@ -196,6 +198,12 @@ class Contract:
     fprops = ()             # "F." clauses: frame / global-state clauses
     guard_relevant = True
     inline = False
+
+    layer = "gadget"        # "gadget": verified against the ghost backend; otherwise the real modules are loaded
+    probe = False           # True: setup() returns a harness closure over several real functions (no single target)
+
+    def world_setup(self, w):
+        """Module overrides / environment for non-gadget layers."""
 
     # ---- to be overridden ---------------------------------------------------
     def configs(self, tier):
